@@ -494,6 +494,36 @@ def r20_12(chk, P, rule='R20.12'):
                'table has grown without any call of vorbis_synthesis_halfrate behind that point: the links found by the open stay '
                'at full rate')
         n += 1
+        # a refusal met while re-applying takes the request back from every link, the first included (it got its flag from
+        # ov_halfrate on the partially open handle, not from this function)
+        allc = list(F.calls('vorbis_synthesis_halfrate'))
+        resets = [c for c in allc if len(F.ex[c].get('c', [])) > 1 and common.const_val(F, F.ex[c]['c'][1]) == 0]
+        sets = [c for c in allc if c not in resets]
+        tested = [c for c in sets if any(c in set(F.walk(t['cond'])) for b, blk in F.blocks.items()
+                                        for t in [blk.get('term')] if t and t.get('cond') is not None)]
+        if tested:
+            idx = []
+            A3 = absint.Analyzer(P, F)
+
+            def obs3(A_, env, e, v):
+                if e in resets:
+                    a0 = A_.F.strip_casts(A_.ex[e]['c'][0])
+                    nd = A_.ex[a0]
+                    if nd['k'] == 'bin' and nd['op'] == '+':
+                        idx.append(A_.peek(env, nd['c'][1]))
+                    else:
+                        idx.append(K(0))
+            A3.observers.append(obs3)
+            A3.run()
+            j = None
+            for x in idx:
+                j = absint.join(j, x)
+            ok2 = j is not None and j.lo == 0
+            chk.ob(rule, F.name, 'refused-request-taken-back-from-every-link', ok2, F.where(resets[0]) if resets else F.where(tested[0]),
+                   (f'the reset calls cover link index {j}' if j is not None else 'a refusal while re-applying the request is tested but no link is reset') +
+                   ('' if ok2 else ': link 0, which got its flag from ov_halfrate on the partially open handle, keeps it -- one link at half '
+                    'rate, the others at full rate, positions advance by two throughout'))
+            n += 1
     chk.require(n >= 1, 'the function that completes the link table was not identified')
     return n
 
@@ -508,7 +538,7 @@ def run(chk, P):
     r20_5(chk, P, E)
     chk.floor('R20.5', 3)
     r20_12(chk, P)
-    chk.floor('R20.12', 1)
+    chk.floor('R20.12', 2)
     import frames
     frames.c20(chk, P)
     import typestate
